@@ -22,6 +22,7 @@ LO, HI = P.get("lo", 0), P.get("hi", 99)
 MODE = P.get("mode", "semantics")  # semantics: plumbing options fixed; plumbing: every option, a small expression/document pool
 PLUMB_E = P.get("plumb_e", [0, 7])
 PLUMB_D = [0, 2]
+NDOCS = P.get("ndocs", 5)
 DOCS = ['{"a": [1, {"a": 1, "b": "x\\u00e9"}], "b c": {"a b": 2}, "k": null}', '[1, 2, {"a": [3]}]', '{"a": ', '"just a string"', ""]
 QUERIES = ["$.a", "$..a", "$[?@.a]", "$.a[?@.a == 1]", "$[?length(@.a) == 2]", "$['b c']", "", "$[", "$[?count(1) == 1]", "$[?nosuch(@.a)]",
            "$[9007199254740992]", "$[?@.a == 'x\\u00e9']", "$.a[1].b", "$[?@.a =~ /[/]", "$[?length(@.*) == 1]"]
@@ -104,7 +105,7 @@ def path_cmd(qi: int, di: int, pretty: bool, nue: bool, debug: bool, ntc: bool, 
     """`json path`: every option combination x query pool x document pool.
 
     pre: 0 <= qi < len(QUERIES) and 0 <= di < len(DOCS) and LO <= qi <= HI
-    pre: (MODE == "semantics" and not pretty and not outfile and not stdin_doc) or (MODE == "plumbing" and qi in PLUMB_E and di in PLUMB_D)
+    pre: (MODE == "semantics" and not pretty and not outfile and not stdin_doc and not debug and di < NDOCS) or (MODE == "plumbing" and qi in PLUMB_E and di in PLUMB_D and not nue and not ntc)
     post: _
     """
     q, d = pick(QUERIES, qi), pick(DOCS, di)
@@ -138,7 +139,7 @@ def pointer_cmd(pi: int, di: int, pretty: bool, nue: bool, debug: bool, uri: boo
     """`json pointer`.
 
     pre: 0 <= pi < len(POINTERS) and 0 <= di < len(DOCS) and LO <= pi <= HI
-    pre: (MODE == "semantics" and not pretty and not outfile) or (MODE == "plumbing" and pi in PLUMB_E and di in PLUMB_D)
+    pre: (MODE == "semantics" and not pretty and not outfile and not debug and di < NDOCS) or (MODE == "plumbing" and pi in PLUMB_E and di in PLUMB_D and not nue and not uri)
     post: _
     """
     p, d = pick(POINTERS, pi), pick(DOCS, di)
@@ -171,7 +172,7 @@ def patch_cmd(pi: int, di: int, pretty: bool, nue: bool, debug: bool, uri: bool,
     """`json patch`.
 
     pre: 0 <= pi < len(PATCHES) and 0 <= di < len(DOCS) and LO <= pi <= HI
-    pre: (MODE == "semantics" and not pretty and not outfile) or (MODE == "plumbing" and pi in PLUMB_E and di in PLUMB_D)
+    pre: (MODE == "semantics" and not pretty and not outfile and not debug and di < NDOCS) or (MODE == "plumbing" and pi in PLUMB_E and di in PLUMB_D and not nue and not uri)
     post: _
     """
     p, d = pick(PATCHES, pi), pick(DOCS, di)
